@@ -19,7 +19,8 @@ type Config struct {
 	MaxEnum     int    // largest range enumerated for a symbolic int
 	MaxAlloc    int    // largest concrete allocation (elements)
 	MaxPaths    int    // per harness
-	Solver      string // z3 | z3-new | cvc5
+	Solver      string // z3 | z3-new | cvc5 : FP-free queries
+	FPSolver    string // solver for queries that mention floating point
 	TimeoutMs   int    // per query
 	MapOrderMax int    // maps with 2..k entries are ranged in every order
 	Workers     int
@@ -33,7 +34,7 @@ type Config struct {
 
 func DefaultConfig() Config {
 	return Config{MaxSteps: 3_000_000, MaxDepth: 400, MaxEnum: 64, MaxAlloc: 1 << 20, MaxPaths: 200000,
-		Solver: "z3", TimeoutMs: 60000, MapOrderMax: 1, Workers: 8, ModulePath: "github.com/Vedant9500/WTF"}
+		Solver: "z3", FPSolver: "cvc5", TimeoutMs: 60000, MapOrderMax: 1, Workers: 8, ModulePath: "github.com/Vedant9500/WTF"}
 }
 
 type abortKind int
@@ -125,7 +126,10 @@ type interpreter struct {
 	prog               *ssa.Program
 	cfg                *Config
 	st                 *TermStore
-	solver             *Solver
+	solver             *Solver // BV solver (z3): receives only FP-free constraints
+	fsolver            *Solver // FP-capable solver (cvc5): receives every constraint; started lazily
+	fpending           []*Term // constraints not yet sent to fsolver
+	pcHasF             bool
 	xsolver            *Solver // cross-check solver (optional)
 	sizes              types.Sizes
 	runtimeErrorString types.Type
@@ -168,6 +172,12 @@ type interpreter struct {
 	callLog map[*ssa.Function]int // per worker, cumulative
 
 	inInit         int
+	model          map[int]uint64 // a model of the current PC (nil = none cached)
+	modelHits      int
+	whyCount       map[string]int
+	ranges         map[int]urange
+	rangeDecided   int
+	fstarted       bool
 	locks          map[*value]*lockInfo
 	lockEvents     int
 	atomicOps      int
@@ -207,6 +217,10 @@ func (i *interpreter) resetPath(prefix []int) {
 	i.nonASCIITotal += i.nonASCII
 	i.nonASCII = 0
 	i.logPoints = nil
+	i.model = map[int]uint64{}
+	i.ranges = map[int]urange{}
+	i.pcHasF = false
+	i.fstarted = false
 	i.locks = nil
 	i.atomicHook = nil
 	i.known = map[int]bool{}
@@ -234,11 +248,58 @@ func (i *interpreter) assume(c *Term) {
 		return
 	}
 	i.pc = append(i.pc, c)
+	if i.model != nil {
+		if v, ok := evalTerm(c, i.model, map[int]uint64{}); !ok || v != 1 {
+			i.model = nil
+		}
+	}
 	i.noteKnown(c, true)
-	i.solver.Assert(c)
+	if c.HasF {
+		i.pcHasF = true
+	} else {
+		i.solver.Assert(c)
+	}
+	if i.fsolver != nil && i.fstarted {
+		i.fsolver.Assert(c)
+	}
 	if i.xsolver != nil {
 		i.xsolver.Assert(c)
 	}
+}
+
+// full returns the solver holding the complete path condition.
+func (i *interpreter) full() *Solver {
+	if !i.pcHasF {
+		return i.solver
+	}
+	return i.fp()
+}
+
+// fp returns the FP-capable solver, starting its scope for this path lazily.
+func (i *interpreter) fp() *Solver {
+	if i.fsolver == nil {
+		s, err := NewSolver(i.cfg.FPSolver, i.st, i.cfg.TimeoutMs)
+		if err != nil {
+			i.abort(abortInternal, "cannot start FP solver: "+err.Error())
+		}
+		i.fsolver = s
+	}
+	if !i.fstarted {
+		i.fstarted = true
+		i.fsolver.Push()
+		for _, c := range i.pc {
+			i.fsolver.Assert(c)
+		}
+	}
+	return i.fsolver
+}
+
+// solverFor picks the solver for a query about c.
+func (i *interpreter) solverFor(c *Term) *Solver {
+	if c.HasF {
+		return i.fp()
+	}
+	return i.solver
 }
 
 // noteKnown records truth values implied syntactically by an assumed term.
@@ -247,6 +308,7 @@ func (i *interpreter) noteKnown(c *Term, v bool) {
 		return
 	}
 	i.known[c.ID] = v
+	i.learnRange(c, v)
 	switch c.Op {
 	case OpNot:
 		i.noteKnown(c.Args[0], !v)
@@ -263,13 +325,42 @@ func (i *interpreter) noteKnown(c *Term, v bool) {
 	}
 }
 
+// simp replaces a Bool term by a constant when the path condition fixes it syntactically.
+func (i *interpreter) simp(c *Term) *Term {
+	if c.IsConst() {
+		return c
+	}
+	if v, ok := i.evalRanges(c); ok {
+		return i.st.Bool(v)
+	}
+	switch c.Op {
+	case OpAnd:
+		a, b := i.simp(c.Args[0]), i.simp(c.Args[1])
+		if a != c.Args[0] || b != c.Args[1] {
+			return i.st.And(a, b)
+		}
+	case OpOr:
+		a, b := i.simp(c.Args[0]), i.simp(c.Args[1])
+		if a != c.Args[0] || b != c.Args[1] {
+			return i.st.Or(a, b)
+		}
+	case OpNot:
+		a := i.simp(c.Args[0])
+		if a != c.Args[0] {
+			return i.st.Not(a)
+		}
+	}
+	return c
+}
+
 // decide resolves a symbolic condition, forking the exploration.
 func (i *interpreter) decide(c *Term, why string) bool {
 	if c.IsConst() {
 		return c.C == 1
 	}
-	if v, ok := i.known[c.ID]; ok {
-		// implied by the path condition syntactically: no fork, no decision slot
+	if v, ok := i.evalRanges(c); ok {
+		// implied by the path condition (syntactically / by interval facts): no fork, no decision slot
+		i.rangeDecided++
 		return v
 	}
 	pos := len(i.decisions)
@@ -283,14 +374,34 @@ func (i *interpreter) decide(c *Term, why string) bool {
 		}
 		return d == 1
 	}
+	if i.whyCount != nil {
+		i.whyCount[why]++
+	}
 	nc := i.st.Not(c)
-	rt := i.solver.CheckWith(c, false)
+	sv := i.solverFor(c)
+	// the cached model witnesses one side without a query
+	mv, mok := uint64(0), false
+	if i.model != nil {
+		mv, mok = evalTerm(c, i.model, map[int]uint64{})
+	}
+	var rt, rf string
+	if mok && mv == 1 {
+		rt = "sat"
+		i.modelHits++
+	} else {
+		rt = i.checkSide(sv, c, mok) // if the model says ¬c, a sat answer here must refresh the model
+	}
 	if rt == "unsat" {
 		i.decisions = append(i.decisions, 0)
 		i.assume(nc)
 		return false
 	}
-	rf := i.solver.CheckWith(nc, false)
+	if mok && mv == 0 {
+		rf = "sat"
+		i.modelHits++
+	} else {
+		rf = sv.CheckWith(nc, false)
+	}
 	if rf == "unsat" {
 		i.decisions = append(i.decisions, 1)
 		i.assume(c)
@@ -305,6 +416,22 @@ func (i *interpreter) decide(c *Term, why string) bool {
 	i.decisions = append(i.decisions, 1)
 	i.assume(c)
 	return true
+}
+
+// checkSide asks whether PC ∧ c is satisfiable; on sat it captures the model
+// (which then is a model of the PC extended by c).
+func (i *interpreter) checkSide(sv *Solver, c *Term, capture bool) string {
+	r := sv.CheckWith(c, true)
+	if r != "sat" {
+		return r
+	}
+	if sv == i.full() {
+		if m, err := sv.Model(i.st.Vars); err == nil {
+			i.model = m
+		}
+	}
+	sv.Pop()
+	return r
 }
 
 // choose is an unconstrained n-way fork.
@@ -405,16 +532,21 @@ func (i *interpreter) checkAssert(c *Term, msg string) {
 			return
 		}
 		// constant false on a feasible path: need a model of the PC
-		r := i.solver.Check()
+		fs := i.full()
+		r := fs.Check()
 		if r == "sat" {
-			i.recordFinding("assert", msg, "", i.solver)
+			i.recordFinding("assert", msg, "", fs)
 		} else if r == "unknown" {
 			i.unknowns = append(i.unknowns, "assert(false) reached, PC unknown: "+msg)
 		} // unsat PC: cannot happen (PC kept feasible)
 		i.abort(abortStop, "assertion failed: "+msg)
 	}
 	nc := i.st.Not(c)
-	r := i.solver.CheckWith(nc, true)
+	as := i.full()
+	if c.HasF {
+		as = i.fp()
+	}
+	r := as.CheckWith(nc, true)
 	switch r {
 	case "unsat":
 		i.solved++
@@ -427,10 +559,10 @@ func (i *interpreter) checkAssert(c *Term, msg string) {
 			}
 		}
 	case "sat":
-		i.recordFinding("assert", msg, "", i.solver)
-		i.solver.Pop()
+		i.recordFinding("assert", msg, "", as)
+		as.Pop()
 		// continue under the assertion if still feasible
-		if i.solver.CheckWith(c, false) == "unsat" {
+		if as.CheckWith(c, false) == "unsat" {
 			i.abort(abortStop, "assertion fails on whole path: "+msg)
 		}
 		i.assume(c)
@@ -597,6 +729,10 @@ func (i *interpreter) runPath(entry *ssa.Function, prefix []int) (res *PathResul
 			res.Sample = i.samplePath()
 		}
 		i.solver.Pop()
+		if i.fsolver != nil && i.fstarted {
+			i.fsolver.Pop()
+		}
+		i.fstarted = false
 		if i.xsolver != nil {
 			i.xsolver.Pop()
 		}
@@ -631,9 +767,10 @@ func (i *interpreter) panicString(v value) string {
 }
 
 func (i *interpreter) onEscapedPanic(res *PathResult) {
-	r := i.solver.Check()
+	fs := i.full()
+	r := fs.Check()
 	if r == "sat" {
-		i.recordFinding("panic", res.Msg, i.panicSite, i.solver)
+		i.recordFinding("panic", res.Msg, i.panicSite, fs)
 	} else if r == "unknown" {
 		i.unknowns = append(i.unknowns, "panic path with unknown PC: "+res.Msg)
 	}
@@ -687,6 +824,8 @@ type HarnessReport struct {
 	MapRangesFixed  int
 	FixedSites  map[string]int
 	NonASCII    int
+	FPQueries   int
+	WhyCount    map[string]int
 }
 
 type Program struct {
@@ -699,7 +838,7 @@ type Program struct {
 func (p *Program) Explore(fn *ssa.Function, cfg Config) *HarnessReport {
 	t0 := time.Now()
 	rep := &HarnessReport{Name: fn.Name(), ByStatus: map[string]int{}, Reached: map[string]int{},
-		Funcs: map[string]int{}, FuncCalls: map[string]int{}, FixedSites: map[string]int{}}
+		Funcs: map[string]int{}, FuncCalls: map[string]int{}, FixedSites: map[string]int{}, WhyCount: map[string]int{}}
 	var mu sync.Mutex
 	queue := [][]int{nil}
 	inflight := 0
@@ -756,14 +895,17 @@ func (p *Program) Explore(fn *ssa.Function, cfg Config) *HarnessReport {
 				}
 			}
 			for _, u := range res.Unknowns {
-				if len(rep.Unknowns) < 50 {
+				if !seenFinding["U|"+u] && len(rep.Unknowns) < 20 {
+					seenFinding["U|"+u] = true
 					rep.Unknowns = append(rep.Unknowns, u)
 				}
 			}
 			switch res.Status {
 			case "unsupported", "budget", "internal":
-				if len(rep.Problems) < 50 {
-					rep.Problems = append(rep.Problems, res.Status+": "+res.Msg+fmt.Sprintf(" (prefix %v)", trimInts(res.Decisions, 40)))
+				pm := res.Status + ": " + res.Msg
+				if !seenFinding["P|"+pm] && len(rep.Problems) < 20 {
+					seenFinding["P|"+pm] = true
+					rep.Problems = append(rep.Problems, pm+fmt.Sprintf(" (first at prefix %v)", trimInts(res.Decisions, 40)))
 				}
 			}
 			if res.Sample != "" && len(rep.Samples) < 3 {
@@ -788,6 +930,16 @@ func (p *Program) Explore(fn *ssa.Function, cfg Config) *HarnessReport {
 		rep.Unknown += s.Unknown
 		rep.SolverErr += s.Errors
 		rep.SolverTime += s.SolveTime
+		if i.fsolver != nil {
+			f := i.fsolver
+			rep.Queries += f.Queries
+			rep.Sat += f.Sat
+			rep.Unsat += f.Unsat
+			rep.Unknown += f.Unknown
+			rep.SolverErr += f.Errors
+			rep.SolverTime += f.SolveTime
+			rep.FPQueries += f.Queries
+		}
 		if i.xsolver != nil {
 			rep.Queries += i.xsolver.Queries
 			rep.SolverTime += i.xsolver.SolveTime
@@ -810,6 +962,9 @@ func (p *Program) Explore(fn *ssa.Function, cfg Config) *HarnessReport {
 			rep.FixedSites[k] += v
 		}
 		rep.NonASCII += i.nonASCIITotal
+		for k, v := range i.whyCount {
+			rep.WhyCount[k] += v
+		}
 		mu.Unlock()
 	}
 	var wg sync.WaitGroup
@@ -857,7 +1012,7 @@ func (p *Program) newInterp(cfg *Config, harness string, id int) (*interpreter, 
 	}
 	i := &interpreter{prog: p.Prog, cfg: cfg, st: st, solver: s, sizes: p.Sizes, harnessName: harness,
 		shared: map[*ssa.Global]*value{}, sharedInit: map[*ssa.Package]bool{},
-		callLog: map[*ssa.Function]int{}, fixedRangeSites: map[string]int{}, regexpsSeen: map[string]int{}}
+		callLog: map[*ssa.Function]int{}, fixedRangeSites: map[string]int{}, regexpsSeen: map[string]int{}, whyCount: map[string]int{}}
 	if cfg.CrossCheck != "" {
 		x, err := NewSolver(cfg.CrossCheck, st, cfg.TimeoutMs)
 		if err != nil {
@@ -875,6 +1030,9 @@ func (p *Program) newInterp(cfg *Config, harness string, id int) (*interpreter, 
 
 func (i *interpreter) close() {
 	i.solver.Close()
+	if i.fsolver != nil {
+		i.fsolver.Close()
+	}
 	if i.xsolver != nil {
 		i.xsolver.Close()
 	}
